@@ -238,7 +238,9 @@ def leanchecker(module):
 
 # ----------------------------------------------------------------------------- harness runs
 
-STALL_S = float(os.environ.get("VERIF_STALL_S", "90"))
+STALL_S = float(os.environ.get("VERIF_STALL_S", "45"))
+MAX_HANGS = int(os.environ.get("VERIF_MAX_HANGS", "3"))    # per check run: after that many hangs the remaining ops are skipped
+HANGS = [0]
 
 
 class _Watched:
@@ -288,6 +290,11 @@ def run_harness_lines(exe, args, ops, case_start=("init", "case"), timeout=3000,
         e.update(env)
     while i < n:
         chunk = ops[i:]
+        if HANGS[0] >= MAX_HANGS:
+            # an implementation that hangs on input after input would keep the check busy for hours: the hangs already
+            # recorded are violations with replays; the rest of this stream is not run
+            results += ["SKIP"] * len(chunk)
+            break
         r = _run_watched([exe] + list(args), "\n".join(chunk) + "\n", timeout, e)
         out = r.stdout.split("\n")
         if out and out[-1] == "":
@@ -298,6 +305,7 @@ def run_harness_lines(exe, args, ops, case_start=("init", "case"), timeout=3000,
             out = out[:len(chunk) - 1] if len(out) >= len(chunk) else out
             k = len(out)
             results += out
+            HANGS[0] += 1
             faults.append((i + k, "hang", f"no answer for {STALL_S}s on: {chunk[k][:300]}"))
             results.append("FAULT hang")
             j = i + k + 1
